@@ -26,6 +26,7 @@ import (
 	"strconv"
 	"strings"
 	"sync"
+	"sync/atomic"
 	"testing"
 	"time"
 
@@ -308,6 +309,10 @@ type vTransPLink struct {
 	upUsed   int
 	downUsed int
 	dead     bool
+	px       *vTransProxy
+	downEnd  []int64 // stream offset at which each parsed frame of `down` ends
+	downOff  int64   // bytes parsed into frames so far
+	downSent int64   // bytes handed to the follower's socket so far (after the hold-back)
 }
 
 type vTransProxy struct {
@@ -316,6 +321,7 @@ type vTransProxy struct {
 	target string
 	mu     sync.Mutex
 	links  []*vTransPLink
+	delay  int64 // nanoseconds every chunk from the leader is held back (atomic)
 }
 
 func vTransNewProxy() *vTransProxy {
@@ -336,7 +342,7 @@ func vTransNewProxy() *vTransProxy {
 				continue
 			}
 			p.mu.Lock()
-			l := &vTransPLink{id: len(p.links), fc: fc, lc: lc, fAddr: fc.RemoteAddr().String()}
+			l := &vTransPLink{id: len(p.links), fc: fc, lc: lc, fAddr: fc.RemoteAddr().String(), px: p}
 			p.links = append(p.links, l)
 			p.mu.Unlock()
 			go l.pump(true)
@@ -364,10 +370,24 @@ func (l *vTransPLink) pump(up bool) {
 				var fs []*vTransFrame
 				fs, l.downTail = vTransSplit(append(l.downTail, tmp[:n]...), false)
 				l.down = append(l.down, fs...)
+				for _, f := range fs {
+					l.downOff += int64(64 + len(f.data))
+					l.downEnd = append(l.downEnd, l.downOff)
+				}
 			}
 			l.mu.Unlock()
+			if !up && l.px != nil {
+				if d := atomic.LoadInt64(&l.px.delay); d > 0 {
+					time.Sleep(time.Duration(d))
+				}
+			}
 			if _, werr := dst.Write(tmp[:n]); werr != nil {
 				break
+			}
+			if !up {
+				l.mu.Lock()
+				l.downSent += int64(n)
+				l.mu.Unlock()
 			}
 		}
 		if err != nil {
@@ -379,6 +399,13 @@ func (l *vTransPLink) pump(up bool) {
 	l.mu.Unlock()
 	_ = l.fc.Close()
 	_ = l.lc.Close()
+}
+
+// has the i-th frame the leader sent been handed to the follower's socket (or will it never be)?
+func (l *vTransPLink) delivered(i int) bool {
+	l.mu.Lock()
+	defer l.mu.Unlock()
+	return l.dead || (i < len(l.downEnd) && l.downSent >= l.downEnd[i])
 }
 
 func (l *vTransPLink) cut() {
@@ -587,6 +614,8 @@ type vTransWorld struct {
 	mu       sync.Mutex
 }
 
+const vTransStrictDelay = 20 * time.Millisecond
+
 const vTransTwin = 1 << 20 // the oracle replays every forwarded command on key+vTransTwin with RequestId tok+vTransTwin
 
 func vTransNewWorld(base string) *vTransWorld {
@@ -643,6 +672,7 @@ type vTransReq struct {
 	tok, flag, db, lockid, key, tflag, timeout, eflag, expried, count, rcount   int
 	data                                                                        []byte // data frame (with its length prefix) or nil
 	value                                                                       string // text SET value
+	will                                                                        bool   // a will command (WILL_LOCK / WILL_UNLOCK frame; text: … WILL 1), typ says what it runs as
 	shortForm                                                                   bool   // text: `LOCK <16 raw key bytes> TIMEOUT 0` (fits the first 64-byte read)
 	cid                                                                         int
 	fw                                                                          bool
@@ -664,6 +694,8 @@ type vTransConn struct {
 	stale    bool               // the latest command was answered before Write recorded it: the link still holds it as in flight
 	half     bool               // text: the client went away while the handler is blocked
 	nreq     int                // requests sent so far
+	wrapped  bool               // has handled a request while the node was not the leader (so: has a transparency wrapper)
+	wills    []*vTransReq
 }
 
 type vTransRun struct {
@@ -688,6 +720,7 @@ type vTransRun struct {
 	current    *vTransConn
 	script     int
 	seed       int64
+	strict     bool          // the proxy holds the leader's frames back 20 ms: no answer can overtake Write's bookkeeping
 	heldL      map[int][]int // key -> LockIds holding it at the leader (as far as the relayed results say)
 }
 
@@ -739,6 +772,9 @@ func (x *vTransRun) lockFrame(q *vTransReq, twin bool) []byte {
 	if q.typ == 'U' {
 		ct = protocol.COMMAND_UNLOCK
 	}
+	if q.will {
+		ct += protocol.COMMAND_WILL_LOCK - protocol.COMMAND_LOCK
+	}
 	tok, key := q.tok, q.key
 	if twin {
 		tok += vTransTwin
@@ -779,6 +815,9 @@ func (x *vTransRun) textCmd(q *vTransReq) []byte {
 	if q.rcount != 0 {
 		args = append(args, "RCOUNT", strconv.Itoa(q.rcount+1))
 	}
+	if q.will {
+		args = append(args, "WILL", "1")
+	}
 	return vTransRESPCmd(args...)
 }
 
@@ -791,6 +830,10 @@ func (x *vTransRun) reqOp(c *vTransConn, q *vTransReq, replica string, short boo
 }
 
 func (x *vTransRun) reqOp1(c *vTransConn, q *vTransReq, replica string) string {
+	if q.will {
+		return fmt.Sprintf("q %d W%c %d %d %d %d %d %d %d %d %d %d %d %s", c.idx, q.typ, q.tok, q.flag, q.db, q.lockid, q.key, q.tflag, q.timeout, q.eflag, q.expried,
+			q.count, q.rcount, vTransDataStr(q.data))
+	}
 	switch q.typ {
 	case 'L', 'U':
 		return fmt.Sprintf("q %d %c %c %d %d %d %d %d %d %d %d %d %d %d %s %s", c.idx, q.typ, q.mode, q.tok, q.flag, q.db, q.lockid, q.key, q.tflag, q.timeout, q.eflag, q.expried,
@@ -976,18 +1019,38 @@ func (x *vTransRun) frameOwner(f *vTransFrame) *vTransConn {
 		x.w.mu.Unlock()
 		return c
 	}
+	if b[2] == protocol.COMMAND_LOCK || b[2] == protocol.COMMAND_UNLOCK {
+		for _, c := range x.conns {
+			for _, q := range c.wills {
+				if c.kind == 't' && vTransNum(b[21:37]) == strconv.Itoa(q.lockid) && vTransNum(b[37:53]) == strconv.Itoa(q.key) {
+					var rid [16]byte
+					copy(rid[:], b[3:19])
+					x.w.mu.Lock()
+					x.w.textRid[rid] = q.tok
+					x.w.mu.Unlock()
+					return c
+				}
+			}
+		}
+	}
 	return nil
 }
 
 // forwarded frames not consumed yet (on every proxy link), canonical and attributed. `adopt`: the connection whose
 // request is being processed — a link instance carrying its frames becomes its current link. (Frames that show up on
 // other instances are re-sends by detached link objects that reconnected.)
-func (x *vTransRun) takeForwarded(adopt *vTransConn) []string {
+func (x *vTransRun) takeForwarded(adopt *vTransConn) []string { return x.takeForwardedUpTo(adopt, -1) }
+
+// … on the link that carries token `stop` only up to (and including) that frame: the forwards of later pipelined requests stay
+func (x *vTransRun) takeForwardedUpTo(adopt *vTransConn, stop int) []string {
 	var out []string
 	for _, l := range x.w.px.snapshot() {
 		l.mu.Lock()
-		for ; l.upUsed < len(l.up); l.upUsed++ {
+		for stopped := false; l.upUsed < len(l.up) && !stopped; l.upUsed++ {
 			f := l.up[l.upUsed]
+			if stop >= 0 && x.w.tokOf(f.raw[3:19]) == strconv.Itoa(stop) {
+				stopped = true
+			}
 			c := x.frameOwner(f)
 			if c == nil {
 				out = append(out, "?<"+vTransCmdStr(f, x.w.tokOf))
@@ -1044,6 +1107,22 @@ func (x *vTransRun) forwardSeen(tok int) bool {
 	return false
 }
 
+// has the will command q (forwarded at its connection's close) reached the proxy, not consumed yet?
+func (x *vTransRun) willSeen(q *vTransReq) bool {
+	for _, l := range x.w.px.snapshot() {
+		l.mu.Lock()
+		for i := l.upUsed; i < len(l.up); i++ {
+			b := l.up[i].raw
+			if (b[2] == protocol.COMMAND_LOCK || b[2] == protocol.COMMAND_UNLOCK) && vTransNum(b[21:37]) == strconv.Itoa(q.lockid) && vTransNum(b[37:53]) == strconv.Itoa(q.key) {
+				l.mu.Unlock()
+				return true
+			}
+		}
+		l.mu.Unlock()
+	}
+	return false
+}
+
 func (x *vTransRun) linkAlive(c *vTransConn) bool { return c.link != nil && !c.link.isDead() }
 
 // ---- events
@@ -1071,15 +1150,37 @@ func (x *vTransRun) evClose(c *vTransConn) {
 		return
 	}
 	n0 := len(x.w.F.srv.GetStreams())
+	before := x.w.F.digest()
+	// the wrapper's Close writes the will commands to the leader when CheckClient yields a link
+	expectFwd := len(c.wills) > 0 && c.wrapped && (x.linkAlive(c) || ((x.role == STATE_FOLLOWER || x.role == STATE_SYNC) && x.addr == 1))
 	c.cli.close()
 	c.closed = true
 	x.waitFor(func() bool { return len(x.w.F.srv.GetStreams()) < n0 }, 2*time.Second)
+	if expectFwd {
+		last := c.wills[len(c.wills)-1]
+		x.waitFor(func() bool { return x.willSeen(last) }, 3*time.Second)
+	}
 	if c.kind == 'b' && c.link != nil {
 		l := c.link
 		x.waitFor(func() bool { return l.isDead() }, 2*time.Second)
 	}
+	time.Sleep(time.Millisecond)
+	fw := x.takeForwarded(c)
 	c.link = nil
-	x.ev(fmt.Sprintf("x %d", c.idx), "ok")
+	if len(fw) == 0 {
+		x.ev(fmt.Sprintf("x %d", c.idx), "ok")
+	} else {
+		x.ev(fmt.Sprintf("x %d", c.idx), "-|"+vTransJoin(fw))
+		x.out.stat("closes-forwarding-wills")
+		for _, q := range c.wills {
+			if q.typ == 'L' {
+				x.heldL[q.key] = append(x.heldL[q.key], q.lockid) // released by the case's clean-up
+			}
+		}
+	}
+	if after := x.w.F.digest(); x.nonLeader() && c.wrapped && after != before {
+		x.report("C10:follower-state-changed-by-client", fmt.Sprintf("the node is not the leader, yet its own lock tables changed while connection %d closed (its will commands ran on the node's own engine?): %s -> %s", c.idx, before, after))
+	}
 }
 
 func (x *vTransRun) evRole(state uint8) {
@@ -1275,8 +1376,10 @@ func (x *vTransRun) evLeaderFrames(c *vTransConn) {
 			return
 		}
 		f := l.down[l.downUsed]
+		fidx := l.downUsed
 		l.downUsed++
 		l.mu.Unlock()
+		x.waitFor(func() bool { return l.delivered(fidx) }, 3*time.Second)
 		b := f.raw
 		toks := x.w.tokOf(b[3:19])
 		tok, terr := strconv.Atoi(toks)
@@ -1323,7 +1426,7 @@ func (x *vTransRun) evLeaderFrames(c *vTransConn) {
 		} else if expect {
 			x.waitFor(func() bool { return x.peekMatch(c, f) }, 4*time.Second)
 		} else {
-			time.Sleep(15 * time.Millisecond)
+			time.Sleep(2 * time.Millisecond)
 		}
 		var got *vTransFrame
 		var cl []string
@@ -1337,10 +1440,15 @@ func (x *vTransRun) evLeaderFrames(c *vTransConn) {
 			continue
 		}
 		// did the answer overtake Write's bookkeeping? (the link object still has the command as its latest in-flight one)
-		if terr == nil && c.latest == tok && x.stillLatest(c, f) {
-			op = "re" + op[1:]
-			c.stale = true
-			x.out.stat("observed:C10:answer-overtook-latest-bookkeeping")
+		if terr == nil && c.latest == tok && x.stillLatest(c, f, len(cl) > 0) {
+			if x.strict {
+				// the proxy held this frame back for 20 ms after the command had left: Write's two assignments were long done
+				x.report("C10:answer-did-not-clear-latest", fmt.Sprintf("the leader's answer %s was relayed %s after the command had been written, yet the link still has it as its latest in-flight command (the next link loss will \"roll back\" an answered request)", op, vTransStrictDelay))
+			} else {
+				op = "re" + op[1:]
+				c.stale = true
+				x.out.stat("observed:C10:answer-overtook-latest-bookkeeping")
+			}
 		}
 		x.ev(op, vTransJoin(cl)+"|"+vTransJoin(x.takeForwarded(nil)))
 		if c.half && terr == nil && c.awaiting == tok {
@@ -1424,7 +1532,7 @@ func (x *vTransRun) linkObj(c *vTransConn) *TransparencyBinaryClientProtocol {
 	return nil
 }
 
-func (x *vTransRun) stillLatest(c *vTransConn, f *vTransFrame) bool {
+func (x *vTransRun) stillLatest(c *vTransConn, f *vTransFrame, relayed bool) bool {
 	o := x.linkObj(c)
 	if o == nil {
 		return false
@@ -1437,6 +1545,17 @@ func (x *vTransRun) stillLatest(c *vTransConn, f *vTransFrame) bool {
 	end := time.Now().Add(2 * time.Second)
 	for o.latestRequestId != rid && time.Now().Before(end) {
 		time.Sleep(50 * time.Microsecond)
+	}
+	if !relayed {
+		// nothing tells when the reader is through with a frame it drops: the frame is in the follower's socket; give the reader
+		// 300 ms to clear the entry — if it is still there then, the reader did see the frame and did not clear it
+		end = time.Now().Add(300 * time.Millisecond)
+		for o.latestRequestId == rid && o.latestCommandType != 0xff && time.Now().Before(end) {
+			time.Sleep(100 * time.Microsecond)
+		}
+	}
+	if os.Getenv("VERIF_TRANS_DEBUG") != "" && o.latestRequestId == rid && o.latestCommandType != 0xff {
+		fmt.Fprintf(os.Stderr, "DEBUG stillLatest case %d strict=%v conn %d rid=%s type=%d obj=%p attached=%v\n", x.caseNo, x.strict, c.idx, x.w.tokOf(rid[:]), o.latestCommandType, o, o.serverProtocol != nil)
 	}
 	return o.latestRequestId == rid && o.latestCommandType != 0xff
 }
@@ -1494,6 +1613,10 @@ func (x *vTransRun) awaitGrant(c *vTransConn, tok int) {
 	if c.link == nil {
 		return
 	}
+	if _, pending := c.inflight[tok]; !pending {
+		x.evLeaderFrames(c) // already recorded (with the answers of an earlier request of the same write)
+		return
+	}
 	l := c.link
 	x.waitFor(func() bool {
 		l.mu.Lock()
@@ -1514,19 +1637,61 @@ func (x *vTransRun) evRequest(c *vTransConn, q *vTransReq) {
 	if c.closed || (c.kind == 't' && c.awaiting >= 0) {
 		return
 	}
+	x.settle()
+	x.current = c
+	defer func() { x.current = nil }()
+	rep := x.replica(q)
+	before := x.w.F.digest()
+	wire := x.wireOf(c, q)
+	_ = c.cli.write(wire)
+	x.observe(c, q, wire, rep, before, -1)
+	x.wakeWaiters()
+	x.drain()
+}
+
+// several requests of a binary connection written with ONE write (they reach the server in one read: the buffered loop
+// of Process), observed one after the other
+func (x *vTransRun) evPipeline(c *vTransConn, qs []*vTransReq) {
+	if c.closed || c.kind != 'b' {
+		return
+	}
+	x.settle()
+	x.current = c
+	defer func() { x.current = nil }()
+	var wires [][]byte
+	var reps []string
+	var all []byte
+	for _, q := range qs {
+		reps = append(reps, x.replica(q))
+		w := x.wireOf(c, q)
+		wires = append(wires, w)
+		all = append(all, w...)
+	}
+	before := x.w.F.digest()
+	_ = c.cli.write(all)
+	x.out.stat("pipelined-writes")
+	// first what became of each request (in the order they were written), then the leader's answers
+	var fwd []*vTransReq
+	for i, q := range qs {
+		var f bool
+		before, f = x.observe1(c, q, wires[i], reps[i], before, q.tok)
+		if f {
+			fwd = append(fwd, q)
+		}
+	}
+	for _, q := range fwd {
+		x.answers(c, q)
+	}
+	x.wakeWaiters()
+	x.drain()
+}
+
+func (x *vTransRun) wireOf(c *vTransConn, q *vTransReq) []byte {
 	x.owner[q.tok] = c
 	x.reqs[q.tok] = q
 	if q.typ == 'I' {
 		c.initTok, c.initCid = q.tok, q.cid
 	}
-	x.settle()
-	x.current = c
-	defer func() { x.current = nil }()
-	rep := x.replica(q)
-	if c.kind == 't' {
-		rep = "n"
-	}
-	before := x.w.F.digest()
 	var wire []byte
 	switch {
 	case c.kind == 't' && q.typ == 'O':
@@ -1554,12 +1719,54 @@ func (x *vTransRun) evRequest(c *vTransConn, q *vTransReq) {
 		wire = make([]byte, 64)
 		_ = pc.Encode(wire)
 	}
-	_ = c.cli.write(wire)
-	x.waitFor(func() bool { return x.answeredTok(c, q.tok) || x.forwardSeen(q.tok) }, 5*time.Second)
-	fw := x.takeForwarded(c)
-	if len(fw) == 0 {
+	return wire
+}
+
+// observe: what came of request q (already written); returns the node's engine digest afterwards
+func (x *vTransRun) observe(c *vTransConn, q *vTransReq, wire []byte, rep string, before string, stop int) string {
+	after, fwd := x.observe1(c, q, wire, rep, before, stop)
+	if fwd {
+		x.answers(c, q)
+	}
+	return after
+}
+
+// the leader's answer to a forwarded request: the same command goes to the leader directly (twin key); when that is answered
+// at once, so is the forwarded one
+func (x *vTransRun) answers(c *vTransConn, q *vTransReq) {
+	if q.typ == 'L' || q.typ == 'U' {
+		x.sendTwin(q.tok)
+		// a request with a time-out on a key the leader is known to hold is meant to queue: a short look suffices (its answer is
+		// picked up by settle() whenever it comes); everything else is answered at once, however loaded the machine is
+		patience := 2 * time.Second
+		if q.timeout > 0 && len(x.heldL[q.key]) > 0 {
+			patience = 100 * time.Millisecond
+		}
+		if x.waitFor(func() bool { return x.twinAnswered(q.tok) }, patience) {
+			x.awaitGrant(c, q.tok)
+		}
+		return
+	}
+	x.awaitGrant(c, q.tok) // INIT / CALL: the leader answers at once
+}
+
+func (x *vTransRun) observe1(c *vTransConn, q *vTransReq, wire []byte, rep string, before string, stop int) (string, bool) {
+	if c.kind == 't' {
+		rep = "n"
+	}
+	if x.nonLeader() {
+		c.wrapped = true
+	}
+	if q.will {
+		c.wills = append(c.wills, q)
+	}
+	if !(q.will && c.kind == 'b') { // a binary will command is answered by nothing: the next command of the script fences it
+		x.waitFor(func() bool { return x.answeredTok(c, q.tok) || x.forwardSeen(q.tok) }, 5*time.Second)
+	}
+	fw := x.takeForwardedUpTo(c, stop)
+	if len(fw) == 0 && !q.will {
 		time.Sleep(time.Millisecond)
-		fw = x.takeForwarded(c)
+		fw = x.takeForwardedUpTo(c, stop)
 	}
 	var first *vTransFrame
 	var cl []string
@@ -1587,7 +1794,7 @@ func (x *vTransRun) evRequest(c *vTransConn, q *vTransReq) {
 	op := x.reqOp(c, q, rep, short)
 	obs := vTransJoin(cl) + "|" + vTransJoin(fw)
 	// evidence that the node's own engine / plain protocol object produced the answer
-	if len(fw) == 0 && len(cl) == 1 {
+	if len(fw) == 0 && len(cl) == 1 && !q.will {
 		switch {
 		case x.role == STATE_LEADER && !(first != nil && first.raw[19] == protocol.RESULT_STATE_ERROR) && !strings.Contains(cl[0], ">E:leader"):
 			obs = "loc" // the node is the leader: its own engine's answer (a transparency refusal would carry STATE_ERROR)
@@ -1621,7 +1828,7 @@ func (x *vTransRun) evRequest(c *vTransConn, q *vTransReq) {
 		if after != before {
 			x.report("C10:follower-state-changed-by-client", fmt.Sprintf("the node is not the leader, yet its own lock tables changed while it handled `%s`: %s -> %s", op, before, after))
 		}
-		if len(fw) == 0 && (q.typ == 'L' || q.typ == 'U') && q.mode != 'p' {
+		if len(fw) == 0 && (q.typ == 'L' || q.typ == 'U') && q.mode != 'p' && !q.will {
 			// a result without any forwarding: anything but a refusal is a decision of this node
 			refusal := false
 			if first != nil {
@@ -1641,7 +1848,7 @@ func (x *vTransRun) evRequest(c *vTransConn, q *vTransReq) {
 		}
 	}
 	// forwarded unchanged? (binary: the very bytes; text: the fields the script put into the command)
-	if len(fw) > 0 && (q.typ == 'L' || q.typ == 'U') {
+	if len(fw) > 0 && (q.typ == 'L' || q.typ == 'U') && !q.will {
 		f := x.fwdFrames[q.tok]
 		if f != nil {
 			x.out.stat("forward-compared")
@@ -1658,23 +1865,8 @@ func (x *vTransRun) evRequest(c *vTransConn, q *vTransReq) {
 				}
 			}
 		}
-		// the same command directly to the leader; does the leader answer at once?
-		x.sendTwin(q.tok)
-		// a request with a time-out on a key the leader is known to hold is meant to queue: a short look suffices (its answer is
-		// picked up by settle() whenever it comes); everything else is answered at once, however loaded the machine is
-		patience := 2 * time.Second
-		if q.timeout > 0 && len(x.heldL[q.key]) > 0 {
-			patience = 100 * time.Millisecond
-		}
-		if x.waitFor(func() bool { return x.twinAnswered(q.tok) }, patience) {
-			x.awaitGrant(c, q.tok)
-		}
-	} else if len(fw) > 0 {
-		// INIT / CALL: the leader answers at once
-		x.awaitGrant(c, q.tok)
 	}
-	x.wakeWaiters()
-	x.drain()
+	return after, len(fw) > 0 && !q.will
 }
 
 // queued requests whose twin has been answered on the oracle: the leader has answered them too
@@ -2147,8 +2339,88 @@ func vTransScriptFirstText(x *vTransRun) {
 	x.evClose(c)
 }
 
+// will commands: queued on the connection, written to the leader when it closes (over the link it has, or one opened for
+// them — INIT first), dropped when there is no link
+func vTransScriptWills(x *vTransRun) {
+	// (kind, variant) cycles deterministically with the case number, so that a quick run holds every combination that matters
+	combos := [][2]int{{'b', 0}, {'t', 0}, {'b', 2}, {'t', 2}, {'b', 1}, {'b', 3}, {'t', 1}, {'t', 3}}
+	cb := combos[(x.caseNo/vTransNScripts)%len(combos)]
+	kind, variant := byte(cb[0]), cb[1]
+	c := x.evAccept(kind)
+	k0, k1, id := x.w.fresh(), x.w.fresh(), x.w.fresh()
+	if kind == 'b' && x.r.Intn(2) == 0 {
+		x.evRequest(c, &vTransReq{typ: 'I', tok: x.w.fresh(), cid: x.w.fresh()})
+	}
+	x.evRequest(c, x.lockReq('L', k0, id, 0, 60))
+	wu := x.lockReq('U', k0, id, 0, 0)
+	wu.will = true
+	x.evRequest(c, wu)
+	wl := x.lockReq('L', k1, x.w.fresh(), 0, 5)
+	wl.will = true
+	x.evRequest(c, wl)
+	x.evRequest(c, &vTransReq{typ: 'O', tok: x.w.fresh()})
+	switch variant {
+	case 1: // the link is gone when the connection closes: a new one is opened for the wills
+		x.evLinkDown(c)
+	case 2: // no leader address: the wills are dropped — and must not run on this node's own engine
+		x.evLeader(0)
+	case 3: // the node has become the leader meanwhile
+		x.evRole(STATE_LEADER)
+		x.evLeader(0)
+	}
+	x.evClose(c)
+	if variant >= 2 {
+		x.oracleUnlock(k0, id)
+	}
+}
+
+// several requests in one write (one read on the server: the buffered loop of Process)
+func vTransScriptPipeline(x *vTransRun) {
+	c := x.evAccept('b')
+	k1, k2, id := x.w.fresh(), x.w.fresh(), x.w.fresh()
+	if x.r.Intn(2) == 0 {
+		x.evRequest(c, x.lockReq('L', x.w.fresh(), id, 0, 60))
+	}
+	x.evPipeline(c, []*vTransReq{x.lockReq('L', k1, id, 0, 60), x.lockReq('L', k2, id, 0, 60), x.lockReq('U', k1, id, 0, 0), {typ: 'O', tok: x.w.fresh()}})
+	x.evRequest(c, x.lockReq('U', k2, id, 0, 0))
+	if x.r.Intn(2) == 0 {
+		x.evRole(STATE_INIT) // refusals, pipelined
+		x.evLinkDown(c)
+		x.evPipeline(c, []*vTransReq{x.lockReq('L', k1, id, 0, 60), x.lockReq('U', k1, id, 0, 0)})
+		x.evRole(STATE_FOLLOWER)
+	}
+	x.evPipeline(c, []*vTransReq{x.lockReq('L', k1, id, 0, 60), x.lockReq('U', k1, id, 0, 0)})
+	x.evClose(c)
+}
+
+// text connections come and go while others stay: links move through the manager's idle pool
+func vTransScriptPool(x *vTransRun) {
+	a, b := x.evAccept('t'), x.evAccept('t')
+	ka, kb, ida, idb := x.w.fresh(), x.w.fresh(), x.w.fresh(), x.w.fresh()
+	x.evRequest(a, x.lockReq('L', ka, ida, 0, 60))
+	x.evRequest(b, x.lockReq('L', kb, idb, 0, 60))
+	x.evRequest(b, x.lockReq('U', kb, idb, 0, 0))
+	x.evClose(b)
+	for i := 0; i < 2; i++ {
+		d := x.evAccept('t')
+		kd, idd := x.w.fresh(), x.w.fresh()
+		x.evRequest(d, x.lockReq('L', kd, idd, 0, 60))
+		x.evRequest(a, x.lockReq('L', ka, ida, 0, 60))
+		x.evRequest(d, x.lockReq('U', kd, idd, 0, 0))
+		if i == 0 && x.r.Intn(2) == 0 {
+			x.evClose(d)
+		}
+	}
+	x.evRequest(a, x.lockReq('U', ka, ida, 0, 0))
+	for _, c := range x.conns {
+		x.evClose(c)
+	}
+}
+
+const vTransNScripts = 17 // = len(vTransScripts) (checked in init)
+
 var vTransScripts = []func(x *vTransRun){vTransScriptBinary, vTransScriptText, vTransScriptNoLink, vTransScriptCut, vTransScriptWaiters, vTransScriptRole,
-	vTransScriptInit, vTransScriptProbe, vTransScriptResume, vTransScriptCut, vTransScriptWalk, vTransScriptWalk, vTransScriptWalk, vTransScriptFirstText}
+	vTransScriptInit, vTransScriptProbe, vTransScriptResume, vTransScriptCut, vTransScriptWalk, vTransScriptWalk, vTransScriptWalk, vTransScriptFirstText, vTransScriptWills, vTransScriptPipeline, vTransScriptPool}
 
 func vTransCase(w *vTransWorld, out *vOut, seed int64, idx int, script int) {
 	x := &vTransRun{w: w, r: rand.New(rand.NewSource(seed*1000003 + int64(idx))), out: out, role: STATE_SYNC, addr: 1, owner: map[int]*vTransConn{}, reqs: map[int]*vTransReq{},
@@ -2161,6 +2433,12 @@ func vTransCase(w *vTransWorld, out *vOut, seed int64, idx int, script int) {
 	_ = w.manager().ChangeLeader(w.px.addr)
 	time.Sleep(2 * time.Millisecond)
 	x.takeForwarded(nil)
+	x.strict = idx%4 == 1
+	if x.strict {
+		atomic.StoreInt64(&w.px.delay, int64(vTransStrictDelay))
+	} else {
+		atomic.StoreInt64(&w.px.delay, 0)
+	}
 	func() {
 		defer func() {
 			if e := recover(); e != nil {
@@ -2218,6 +2496,9 @@ func vTransCase(w *vTransWorld, out *vOut, seed int64, idx int, script int) {
 
 func init() {
 	vModes["trans"] = func(t *testing.T) {
+		if len(vTransScripts) != vTransNScripts {
+			t.Fatalf("vTransNScripts = %d, but there are %d scripts", vTransNScripts, len(vTransScripts))
+		}
 		out := vOpen("trans")
 		defer out.close()
 		seed := int64(vEnvInt("VERIF_SEED", 1))
@@ -2235,7 +2516,18 @@ func init() {
 			if only >= 0 {
 				sc = only
 			}
-			vTransCase(w, out, seed, i, sc)
+			// a case takes well under a second; one that does not come back within 90 s has hung the node (a handler blocked for
+			// good, the manager's lock never released): report it and give up, the process cannot be recovered
+			done := make(chan struct{})
+			go func() { defer close(done); vTransCase(w, out, seed, i, sc) }()
+			select {
+			case <-done:
+			case <-time.After(90 * time.Second):
+				out.monitor("C10:case-hung", fmt.Sprintf("case %d (script family %d) did not finish within 90 s: the follower node is stuck", i, sc),
+					map[string]interface{}{"case": i, "script": sc, "seed": seed, "rerun": fmt.Sprintf("VERIF_SEED=%d VERIF_TRANS_FIRST=%d VERIF_TRANS_SCRIPT=%d VERIF_N=1 (mode trans)", seed, i, sc)})
+				out.close()
+				os.Exit(3)
+			}
 		}
 	}
 }
